@@ -1,17 +1,291 @@
 import QV.Shared.Parse
-/-! C01 — first theorems (the crash-freedom theorems follow in this file as they are proved). -/
-namespace QV.C01
-open QV QV.Tok QV.Parse
+import QV.Shared.Lex
+import QV.C01.Lemmas
+import QV.C01.LemmasParse
+/-!
+C01 — parsing never panics or aborts on any input text.
 
-/-- `signed_integer` never wraps: an accepted literal is the exact integer `± magnitude`, and it is
-accepted exactly when that integer fits in an `i64`. -/
+The theorems are about the shared token-level parser model `QV.Shared.Parse` (one Lean function per Rust
+function of parser/{instruction,command,common,expression,gate,pragma_extern}.rs, with an explicit `crash`
+outcome at every site where the Rust code can panic, and two model budgets whose exhaustion is a `crash`
+too) and the shared lexer model `QV.Shared.Lex`.
+
+* `C01_*_no_crash` — for ALL token lists, none of the entry points (`Program::from_str`,
+  `Instruction::from_str`, `Expression::from_str`, `MemoryReference::from_str`, `FrameIdentifier::from_str`,
+  and `ExternSignature::from_str`) reaches a crash site or exhausts a budget.  Since the budgets stand for
+  the recursion depth and the loop iterations, this is also the termination statement: every loop iteration
+  and every recursive call consumes a token.
+* `C01_*_from_text` — the same composed with the lexer model, for ALL character lists.
+* `depth_*` — the recursion depth the parser reaches is at most the number of tokens (+1), and it is
+  unbounded: for every `d` there is an input that needs a depth budget above `d`.  A real stack is finite:
+  this is the known finding C01/deep-nesting, which no theorem about the model can remove.
+-/
+namespace QV.C01
+open QV QV.Tok QV.Ast QV.Parse
+
+/-! ## the specification, independent of the parser: what "no panic" means for an outcome -/
+
+/-- the property's statement about one outcome: it is a value or an error -/
+def Returns {α : Type} (o : Outcome α) : Prop := (∃ v r, o = .ok v r) ∨ o = .err ∨ o = .fail
+
+/-- Bool form, evaluated by the driver on outcome classes -/
+def returnsB {α : Type} (o : Outcome α) : Bool := !o.isCrash
+
+theorem returnsB_iff {α : Type} (o : Outcome α) : returnsB o = true ↔ Returns o := by
+  cases o <;> simp [returnsB, Returns, Outcome.isCrash]
+
+theorem returns_iff_no_crash {α : Type} (o : Outcome α) : Returns o ↔ ∀ w, o ≠ .crash w := by
+  cases o <;> simp [Returns]
+
+theorem returns_of_safe {α : Type} {o : Outcome α} {i : List Token} (h : Safe o i) : Returns o :=
+  (returns_iff_no_crash o).2 h.not_crash
+
+theorem safe_disallowLeftover {α : Type} {o : Outcome α} {i : List Token} (h : Safe o i) :
+    Safe (disallowLeftover o) i := by
+  cases o with
+  | ok v r => cases r <;> simp_all [disallowLeftover]
+  | err => simp [disallowLeftover]
+  | fail => simp [disallowLeftover]
+  | crash w => exact absurd h (safe_crash w i)
+
+/-! ## no entry point crashes, on any token list -/
+
+/-- `parse_instructions` at ANY depth budget above the number of tokens: no crash, no exhausted budget. -/
+theorem C01_program_no_crash_at (d : Nat) (ts : List Token) (h : ts.length < d) :
+    Returns (parseProgramAt d ts) :=
+  returns_of_safe (safe_disallowLeftover ((good_parseInstructionsAt d).safe ts h))
+
+/-- `Program::from_str` (after lexing): for ALL token lists the parser returns a value or an error. -/
+theorem C01_program_no_crash (ts : List Token) : Returns (parseProgram ts) :=
+  C01_program_no_crash_at (budget ts) ts (by simp [budget])
+
+/-- the same, as the statement reads: never `crash` -/
+theorem C01_program_never_crashes (ts : List Token) (w : String) : parseProgram ts ≠ .crash w :=
+  (returns_iff_no_crash _).1 (C01_program_no_crash ts) w
+
+/-- `Instruction::from_str` (after lexing) -/
+theorem C01_instruction_no_crash (ts : List Token) : Returns (parseInstructionStr ts) := by
+  have h := (good_parseInstructionsAt (budget ts)).safe ts (by simp [budget])
+  unfold parseInstructionStr parseInstructions
+  cases hp : parseInstructionsAt (budget ts) ts with
+  | ok v r =>
+    match v with
+    | [] => simp [Returns]
+    | [i] => simp [Returns]
+    | _ :: _ :: _ => simp [Returns]
+  | err => simp [Returns]
+  | fail => simp [Returns]
+  | crash w => rw [hp] at h; exact absurd h (safe_crash w ts)
+
+/-- `Expression::from_str` (after lexing) -/
+theorem C01_expression_no_crash (ts : List Token) : Returns (parseExpressionStr ts) :=
+  returns_of_safe (safe_disallowLeftover ((good_parseExpressionAt (budget ts)).safe ts (by simp [budget])))
+
+/-- `MemoryReference::from_str` (after lexing) -/
+theorem C01_memory_reference_no_crash (ts : List Token) : Returns (parseMemoryReferenceStr ts) :=
+  returns_of_safe (safe_disallowLeftover ((good_parseMemoryReference (ts.length + 1)).safe ts (by omega)))
+
+/-- `FrameIdentifier::from_str` (after lexing) -/
+theorem C01_frame_identifier_no_crash (ts : List Token) : Returns (parseFrameIdentifierStr ts) :=
+  returns_of_safe (safe_disallowLeftover ((good_parseFrameIdentifier (ts.length + 1)).safe ts (by omega)))
+
+/-- `ExternSignature::from_str` (after lexing; what `PRAGMA EXTERN` signatures go through) -/
+theorem C01_extern_signature_no_crash (ts : List Token) : Returns (parseExternSignatureStr ts) :=
+  returns_of_safe (safe_disallowLeftover ((good_parseExternSignature (ts.length + 1)).safe ts (by omega)))
+
+/-- Every token-level parser returns a rest that is not longer than its input (so the slices
+`&input[..1]`, `&input[qubits.len()..]` are in range and every loop makes progress). -/
+theorem C01_rest_not_longer (ts : List Token) (is : List Instruction) (r : List Token)
+    (h : parseInstructions ts = .ok is r) : r.length ≤ ts.length := by
+  have hs := (good_parseInstructionsAt (budget ts)).safe ts (by simp [budget])
+  unfold parseInstructions at h
+  rw [h] at hs
+  exact hs
+
+/-! ## composed with the lexer: all character lists
+
+The lexer model `QV.Lex.lex : List Char → Option (List Token)` has no crash outcome: the Rust lexer
+(parser/lexer/mod.rs, quoted_strings.rs, wrapped_parsers.rs) was examined for panic sites — the only
+`unwrap` is on the constant `from_utf8(&[b'0', PREFIX])` (mod.rs:357), the `input.slice(..len)` /
+`input.slice(len..)` calls (mod.rs:305-331) use a `len` returned by `lexical` for the same ASCII text
+(always a character boundary), there is no indexing, no `as` cast, no checked arithmetic.  (The `lexical`
+crate itself is a dependency; its debug assertion on `1._0000000000000000001` was side-stepped in quil-rs
+by c330f06 and that input is a regression case of the correspondence check.) -/
+
+/-- a `from_str` entry point: lex, then the token-level entry; a lexing error is an error -/
+def fromText {α : Type} (entry : List Token → Outcome α) (cs : List Char) : Outcome α :=
+  match QV.Lex.lex cs with
+  | some ts => entry ts
+  | none => .err
+
+theorem fromText_returns {α : Type} (entry : List Token → Outcome α) (h : ∀ ts, Returns (entry ts))
+    (cs : List Char) : Returns (fromText entry cs) := by
+  unfold fromText
+  cases QV.Lex.lex cs with
+  | some ts => exact h ts
+  | none => simp [Returns]
+
+/-- `Program::from_str`, for ALL character lists -/
+theorem C01_program_from_text (cs : List Char) : Returns (fromText parseProgram cs) :=
+  fromText_returns _ C01_program_no_crash cs
+/-- `Instruction::from_str`, for ALL character lists -/
+theorem C01_instruction_from_text (cs : List Char) : Returns (fromText parseInstructionStr cs) :=
+  fromText_returns _ C01_instruction_no_crash cs
+/-- `Expression::from_str`, for ALL character lists -/
+theorem C01_expression_from_text (cs : List Char) : Returns (fromText parseExpressionStr cs) :=
+  fromText_returns _ C01_expression_no_crash cs
+/-- `MemoryReference::from_str`, for ALL character lists -/
+theorem C01_memory_reference_from_text (cs : List Char) : Returns (fromText parseMemoryReferenceStr cs) :=
+  fromText_returns _ C01_memory_reference_no_crash cs
+/-- `FrameIdentifier::from_str`, for ALL character lists -/
+theorem C01_frame_identifier_from_text (cs : List Char) : Returns (fromText parseFrameIdentifierStr cs) :=
+  fromText_returns _ C01_frame_identifier_no_crash cs
+
+/-! ## the crash sites are real: non-vacuity
+
+`crash` is not an unreachable constructor of the model: the slice helpers do crash out of range, a too
+small depth budget is reported as a crash, and a parser with the pre-34d49dc operand code (`panic!` on an
+operator other than minus before a literal) is refuted by the very input of the property text. -/
+
+example : (sliceTo [] 1).isCrash = true := by decide
+example : (sliceFrom [Token.colon] 2).isCrash = true := by decide
+example : isDepthCrash (parseProgramAt 1 [.identifier ['R', 'X'], .lParenthesis, .lParenthesis, .integer 1,
+    .rParenthesis, .rParenthesis, .integer 0]) = true := by decide
+
+/-- the operand parser as it was before the fix 34d49dc: any operator token was accepted by the sign
+position and `_ => panic!("Implement this error")` hit for operators other than minus -/
+def parseArithmeticOperandOld : Parser ArithmeticOperand := fun i =>
+  match i with
+  | .operator .minus :: .integer v :: r => .ok (.literalInteger (-(v : Int))) r
+  | .operator _ :: .integer _ :: _ => .crash "Implement this error"
+  | .integer v :: r => .ok (.literalInteger v) r
+  | _ => (pmap ArithmeticOperand.memoryReference parseMemoryReference) i
+
+/-- `ADD ro +1` on the old operand parser: the crash the property text names -/
+theorem old_operand_parser_crashes :
+    ((do let _ ← parseMemoryReference; parseArithmeticOperandOld : Parser ArithmeticOperand)
+      [.identifier ['r', 'o'], .operator .plus, .integer 1]).cls = .crash := by
+  decide
+
+/-- … and the current one rejects it (a `Failure`, because a command's errors are never recoverable) -/
+example : (parseProgram [.command .add, .identifier ['r', 'o'], .operator .plus, .integer 1]).cls = .fail := by
+  decide
+example : (parseProgram [.nonBlocking]).cls = .fail := by decide
+example : (parseProgram [.nonBlocking, .identifier ['X'], .integer 0]).cls = .fail := by decide
+/-- `MOVE ro -9223372036854775808` is `i64::MIN`, one more is rejected, nothing wraps -/
+example : (parseProgram [.command .move, .identifier ['r', 'o'], .operator .minus,
+    .integer 9223372036854775808]).cls = .ok := by decide
+example : (parseProgram [.command .move, .identifier ['r', 'o'], .operator .minus,
+    .integer 9223372036854775809]).cls = .fail := by decide
+example : (parseProgram [.command .move, .identifier ['r', 'o'], .integer 18446744073709551615]).cls = .fail := by
+  decide
+
+/-! ## recursion depth -/
+
+theorem depthFrom_le (ts : List Token) : ∀ k d : Nat, depthFrom ts k d ≤ d + k := by
+  intro k
+  induction k with
+  | zero => intro d; simp [depthFrom]
+  | succ k ih =>
+    intro d
+    unfold depthFrom
+    split
+    · have := ih (d + 1); omega
+    · omega
+
+/-- the depth the parser reaches is at most the number of tokens plus one -/
+theorem depth_le (ts : List Token) : depth ts ≤ ts.length + 1 := by
+  have := depthFrom_le ts (budget ts) 0
+  simpa [depth, budget] using this
+
+theorem depthFrom_ge_start (ts : List Token) : ∀ k d : Nat, d ≤ depthFrom ts k d := by
+  intro k
+  induction k with
+  | zero => intro d; simp [depthFrom]
+  | succ k ih =>
+    intro d
+    unfold depthFrom
+    split
+    · have := ih (d + 1); omega
+    · omega
+
+theorem depthFrom_ge (ts : List Token) :
+    ∀ (k d j : Nat), j ≤ k → (∀ d', d ≤ d' → d' < d + j → isDepthCrash (parseProgramAt d' ts) = true) →
+      d + j ≤ depthFrom ts k d := by
+  intro k
+  induction k with
+  | zero => intro d j hj _; simp [depthFrom]; omega
+  | succ k ih =>
+    intro d j hj h
+    cases j with
+    | zero => have := depthFrom_ge_start ts (k + 1) d; omega
+    | succ j =>
+      unfold depthFrom
+      rw [h d (by omega) (by omega)]
+      simp only [↓reduceIte]
+      have := ih (d + 1) j (by omega) (by intro d' h1 h2; exact h d' (by omega) (by omega))
+      omega
+
+/-- `RX(((…1…))) 0` with `n` extra pairs of parentheses -/
+def nested (n : Nat) : List Token :=
+  .identifier ['R', 'X'] :: .lParenthesis ::
+    (List.replicate n .lParenthesis ++ .integer 1 :: (List.replicate n .rParenthesis ++ [.rParenthesis, .integer 0]))
+
+theorem parse_nested_crash : ∀ (d n : Nat) (rest : List Token) (p : Prec), d ≤ n →
+    parse d (List.replicate n .lParenthesis ++ rest) p = .crash depthExceeded := by
+  intro d
+  induction d with
+  | zero => intro n rest p _; rfl
+  | succ d ih =>
+    intro n rest p h
+    cases n with
+    | zero => omega
+    | succ n =>
+      have := ih n rest Prec.lowest (by omega)
+      simp [parse, parseBody, opt, parsePrefix, parseImmediateValue, parseOperand, parseGroupedExpression,
+        List.replicate_succ, this]
+
+theorem parseInstructionAt_nested_crash (d n : Nat) (h : d ≤ n) :
+    parseInstructionAt d (nested n) = .crash depthExceeded := by
+  cases d with
+  | zero => rfl
+  | succ d =>
+    have := parse_nested_crash (d + 1) n
+      (.integer 1 :: (List.replicate n .rParenthesis ++ [.rParenthesis, .integer 0])) Prec.lowest h
+    simp [nested, parseInstructionAt, parseInstructionBody, skipNewlinesAndComments, many0, many0Fuel, alt,
+      preceded, tok, tokComment, pmap, Parser.bind, Parser.pure, Outcome.map, parseGate, parseGateModifier,
+      tokModifier, tokIdentifier, parseParameters, opt, delimited, separatedList0, parseExpressionAt, this]
+
+theorem parseProgramAt_nested_crash (d n : Nat) (h : d ≤ n) :
+    isDepthCrash (parseProgramAt d (nested n)) = true := by
+  have := parseInstructionAt_nested_crash d n h
+  simp [parseProgramAt, parseInstructionsAt, allConsuming, delimited, Parser.bind, nested,
+    skipNewlinesAndComments, many0, many0Fuel, alt, preceded, tok, tokComment, pmap, Parser.pure, Outcome.map,
+    disallowLeftover, isDepthCrash] at this ⊢
+  simp [this, disallowLeftover, isDepthCrash]
+
+/-- the nested input needs a depth budget above `n` -/
+theorem depth_nested (n : Nat) : n + 1 ≤ depth (nested n) := by
+  have := depthFrom_ge (nested n) (budget (nested n)) 0 (n + 1) (by simp [budget, nested]; omega)
+    (fun d' _ h2 => parseProgramAt_nested_crash d' n (by omega))
+  simpa [depth] using this
+
+/-- The recursion depth is unbounded: no finite stack is enough for every input (the known finding
+C01/deep-nesting; the model shows it is inherent in the grammar, the child process shows the abort). -/
+theorem depth_unbounded : ∀ d : Nat, ∃ ts : List Token, d ≤ depth ts :=
+  fun d => ⟨nested d, by have := depth_nested d; omega⟩
+
+/-- … while the nested inputs are perfectly valid programs: at a sufficient budget they parse. -/
+example : (parseProgram (nested 3)).isOk = true := by decide
+example : depth (nested 3) = 4 := by decide
+
+/-! ## `signed_integer` never wraps (the C05 overflow of the property text) -/
+
+/-- an accepted literal is the exact integer `± magnitude`, accepted exactly when it fits an `i64` -/
 theorem signedInteger_exact (neg : Bool) (m : Nat) (z : Int) :
     signedInteger neg m = some z ↔
       (z = (if neg then -(m : Int) else (m : Int)) ∧ -9223372036854775808 ≤ z ∧ z ≤ 9223372036854775807) := by
   unfold signedInteger
   cases neg <;> simp <;> constructor <;> intro h <;> (try split at h) <;> (try split) <;> omega
-
-example : signedInteger true 9223372036854775808 = some (-9223372036854775808) := by decide
-example : signedInteger false 9223372036854775808 = none := by decide
 
 end QV.C01
